@@ -586,13 +586,16 @@ var ftNames = map[codec.FrameType]string{
 	codec.INTEGER_VALUE: "INTEGER_VALUE", codec.RTIME_VALUE: "RTIME_VALUE", codec.STRING_VALUE: "STRING_VALUE", codec.OPERATOR: "OPERATOR",
 	codec.VCL: "VCL",
 }
-var ftByName = func() map[string]byte {
-	m := map[string]byte{}
+
+func init() {
+	// frame types added after the snapshot are registered by value so that the harness also builds against older trees
+	ftNames[codec.VCL+1] = "SUBROUTINE_PARAMETER"
 	for k, v := range ftNames {
-		m[v] = byte(k)
+		ftByName[v] = byte(k)
 	}
-	return m
-}()
+}
+var ftByName = map[string]byte{}
+
 var leafFT = map[string]bool{"FLOAT_VALUE": true, "IP_VALUE": true, "IDENT_VALUE": true, "BOOL_VALUE": true, "INTEGER_VALUE": true,
 	"RTIME_VALUE": true, "STRING_VALUE": true, "OPERATOR": true}
 
@@ -602,8 +605,15 @@ type tok struct {
 	Len  int    `json:"len"`
 	Part string `json:"part"`
 	off  int
+	hdr  int // header bytes (3, or 7 with the extended length)
 	end  int // offset after header and payload
 }
+
+// extended: the tree under test writes values of 65535 bytes or more with a 32-bit length (measured once at start)
+var extended = func() bool {
+	b, err := codec.NewEncoder().Encode(&ast.LogStatement{Value: &ast.String{Value: strings.Repeat("x", 65535)}})
+	return err == nil && len(b) == 3+7+65535+1
+}()
 
 // tokenise walks the real encoding as the decoder does: headers, leaf payloads, one-byte markers.
 // total = the real payload length of every leaf as the ENCODER wrote it cannot be known from the bytes when the
@@ -624,12 +634,20 @@ func tokenise(b []byte, leafLens []int) ([]tok, bool) {
 		if i+3 > len(b) {
 			return out, false
 		}
-		t := tok{T: name, Sz: int(b[i+1])<<8 | int(b[i+2]), off: i}
+		t := tok{T: name, Sz: int(b[i+1])<<8 | int(b[i+2]), off: i, hdr: 3}
 		i += 3
 		if leafFT[name] {
+			if t.Sz == 0xFFFF && extended {
+				if i+4 > len(b) {
+					return out, false
+				}
+				t.Sz = int(b[i])<<24 | int(b[i+1])<<16 | int(b[i+2])<<8 | int(b[i+3])
+				t.hdr = 7
+				i += 4
+			}
 			t.Len = t.Sz
-			if li < len(leafLens) && leafLens[li]%65536 == t.Sz {
-				t.Len = leafLens[li]
+			if li < len(leafLens) && !extended && leafLens[li]%65536 == t.Sz {
+				t.Len = leafLens[li] // a wrapped 16-bit length (trees without the extended length)
 			}
 			li++
 			if i+t.Len > len(b) {
@@ -1021,7 +1039,7 @@ func applyMut(e encoded, b behaviour) ([]byte, string, bool) {
 				case "hdr2":
 					cut = nx.off + 2
 				case "pay":
-					cut = nx.off + 3 + nx.Len/2
+					cut = nx.off + nx.hdr + nx.Len/2
 				}
 			}
 		}
@@ -1054,7 +1072,7 @@ func applyMut(e encoded, b behaviour) ([]byte, string, bool) {
 		x := t[m.I-1]
 		mb := append([]byte{}, e.bin[:x.off]...)
 		mb = append(mb, e.bin[x.off], byte(m.KK>>8), byte(m.KK))
-		mb = append(mb, e.bin[x.off+3:x.off+3+m.KK]...)
+		mb = append(mb, e.bin[x.off+x.hdr:x.off+x.hdr+m.KK]...)
 		mb = append(mb, e.bin[x.end:]...)
 		return mb, x.T, true
 	}
